@@ -370,6 +370,13 @@ def run(ctx: Context, rep) -> None:
         "configuration-bounded prefill exactly one new input is enqueued "
         "per dequeued result (same structural check as C13.consumer)")
     rustrules.check_pulls(ctx, rep, "C14.rust")
+    # the read-ahead of an abandoned pass is released: leaving the pool's
+    # context always stops the workers (same rule as C13.reset for __exit__)
+    from sa.rules.c13 import check_exit_resets
+    rep.rule("C14.release", "LazyPool.__exit__ calls finish_and_reset "
+             "unconditionally, first")
+    check_exit_resets(ctx, rep, "C14.release")
+
 
 
 _IT = "src/sedpack/io/itertools/itertools.py"
